@@ -36,6 +36,9 @@ OpsOf(cls, s) ==
     [] cls = "ConnectRand" -> {RandClient(i) : i \in 1..2}
     [] cls = "ConnectHonest" -> {Honest(k) : k \in Enrolled(s)}
     [] cls = "ConnectNear" -> UNION {Mutate(Honest(k)) : k \in Enrolled(s)}
+    \* the identical request (same nonce, same signatures) of an honest client sent earlier in this history, sent again
+    [] cls = "ConnectReplay" -> {[x \in DOMAIN hist[i] \cup {"replay"} |-> IF x = "replay" THEN TRUE ELSE hist[i][x]] :
+                                   i \in {j \in 1..Len(hist) : hist[j].op = "Connect" /\ hist[j].kind = "auth" /\ hist[j].priv /\ hist[j].chain = "b0"}}
     [] cls = "ConnectMixed" -> {[c EXCEPT !.kind = RE({"mixedFA", "mixedFA", "mixedAF"})] :
                                   c \in UNION {{Honest(k), [Honest(k) EXCEPT !.chain = "self", !.ck = RE(CertKeys)], [Honest(k) EXCEPT !.priv = FALSE]} : k \in Enrolled(s)}}
     [] cls = "ConnectOther" -> {[op |-> "Connect", kind |-> RE({"base", "fetch"}), k |-> RE(CertKeys), ck |-> RE(CertKeys), chain |-> "self",
